@@ -22,7 +22,7 @@ class MetProp:
 
     def request(self, c):
         return {"cmd": "evalmulti", "records": c["recs"],
-                "evals": [{"query": e["q"], "label": e.get("label", []), "line": e.get("line", []), "limit": 0,
+                "evals": [{"query": e["q"], "label": e.get("label", []), "line": e.get("line", []), "limit": e.get("limit", 0),
                            "start": e["start"], "end": e["end"], "step": e["step"]} for e in c["evals"]]}
 
     def to_coq(self, c, r):
